@@ -744,20 +744,20 @@ def R4b_token_account_loader(run):
     fn = facts.need_fn(AL + "load_token_program_account")
     run.touch(fn)
     pv = prov_of(fn)
-    owner_calls = []
-    for bi, t in fn.calls():
-        if (callee_path(t) or "").endswith("check_owner_program"):
-            args = [strip(pv.operand(a, bi, len(fn.blocks[bi]["s"]))) for a in t["a"]]
-            k = args[1]
-            k = strip(k[1]) if k[0] == "ref" else k
-            owner_calls.append((bi, is_param(args[0], "account_info"), (k[2] or "").rsplit("::", 1)[-1] if k[0] == "const" else sh(k, 40), cfg.result_checked(fn, bi)))
+    from rules.common import owner_tests
+    ots = owner_tests(fn)
+    owner_calls = [(at.block, is_param(acct, "account_info"), name, "AccountOwnedByWrongProgram" in codes, at, neg) for (at, name, acct, codes, neg) in ots]
     ok = sorted(c[2] for c in owner_calls) == ["TOKEN_2022_PROGRAM_ID", "TOKEN_PROGRAM_ID"] and all(c[1] and c[3] for c in owner_calls)
-    run.check("R4b", "owner-checks", ok, "load_token_program_account's owner checks are %s; expected check_owner_program(account_info, &TOKEN_PROGRAM_ID)? and (.., &TOKEN_2022_PROGRAM_ID)?, both checked" %
+    run.check("R4b", "owner-checks", ok, "load_token_program_account's owner checks are %s; expected !is_owned_by(&TOKEN_PROGRAM_ID) and !is_owned_by(&TOKEN_2022_PROGRAM_ID) to fail with AccountOwnedByWrongProgram" %
               [(c[2], c[1], c[3]) for c in owner_calls], loc=fn.loc(), detail="owner compared with the two SPL program id constants")
     if ok:
-        blocks = [c[0] for c in owner_calls]
-        leak = cfg.success_reach(fn, 0, cut_blocks=blocks)
-        run.check("R4b", "owner-check-on-every-success", not leak, "a success return of load_token_program_account avoids both owner checks", loc=fn.loc(), detail="no success path around check_owner_program")
+        cut = set()
+        for c in owner_calls:
+            at, neg = c[4], c[5]
+            for tg in (at.false_targets if neg else at.true_targets):
+                cut.add((at.block, tg))
+        leak = cfg.success_reach(fn, 0, cut_edges=cut)
+        run.check("R4b", "owner-check-on-every-success", not leak, "a success return of load_token_program_account avoids both owner checks", loc=fn.loc(), detail="no success path around the owner tests")
         # the arm taken for each last byte
         sw = [(bi, bb["t"]) for bi, bb in enumerate(fn.blocks) if bb["t"]["k"] == "switch" and mentions(pv.operand(bb["t"]["d"], bi, len(bb["s"])), lambda s_: s_[0] == "call" and s_[1].endswith("::owner"))]
         good = len(sw) == 1
@@ -765,8 +765,11 @@ def R4b_token_account_loader(run):
             bi, t = sw[0]
             arms = {int(v): b for v, b in t["ts"]}
             by_const = {c[2]: c[0] for c in owner_calls}
-            good = set(arms) == {lb, lb22} and by_const["TOKEN_PROGRAM_ID"] in cfg.reach(fn, arms[lb], cut_blocks=[bi]) and by_const["TOKEN_2022_PROGRAM_ID"] not in cfg.reach(fn, arms[lb], cut_blocks=[bi] + [by_const["TOKEN_PROGRAM_ID"]]) and \
-                by_const["TOKEN_2022_PROGRAM_ID"] in cfg.reach(fn, arms[lb22], cut_blocks=[bi]) and not cfg.success_reach(fn, t["o"], cut_blocks=[bi])
+            pass_of = {c[2]: [(c[4].block, tg) for tg in (c[4].false_targets if c[5] else c[4].true_targets)] for c in owner_calls}
+            good = set(arms) == {lb, lb22} and by_const["TOKEN_PROGRAM_ID"] in cfg.reach(fn, arms[lb], cut_blocks=[bi]) and \
+                not cfg.success_reach(fn, arms[lb], cut_blocks=[bi], cut_edges=pass_of["TOKEN_PROGRAM_ID"]) and \
+                by_const["TOKEN_2022_PROGRAM_ID"] in cfg.reach(fn, arms[lb22], cut_blocks=[bi]) and \
+                not cfg.success_reach(fn, arms[lb22], cut_blocks=[bi], cut_edges=pass_of["TOKEN_2022_PROGRAM_ID"]) and not cfg.success_reach(fn, t["o"], cut_blocks=[bi])
         run.check("R4b", "arm-by-last-byte", good, "the owner's last byte does not select the matching program-id check (other owners must fail)", loc=fn.loc(), detail="0xa9 => Token, 0xfc => Token-2022, else error")
     want = {"multisig": False, "short": False, "uninit": False, "type": False}
     for at in A.atoms(fn):
